@@ -227,8 +227,20 @@ class ParseContext(ParserEngine):
 
     @contextmanager
     def skipgroup(self) -> Any:
-        with self.statescope(merge=False):
+        self.states.push()
+        try:
             yield
+        except FailedParse:
+            cutseen = self.state.cutseen
+            self.states.undo()
+            if cutseen:
+                # NOTE: a cut inside the group commits the construct the group sits in
+                self.state.cutseen = True
+            raise
+        cutseen = self.state.cutseen
+        self.states.pop()
+        if cutseen:
+            self.state.cutseen = True
 
     _skipgroup = skipgroup
 
